@@ -641,7 +641,7 @@ package kafka
 //@   callsite (*Client).Produce requires typeis($2.Records, "*kafka.writerRecords") && deref($2.Records, "writerRecords").index == 0
 //@   callsite (*Client).Produce requires same(deref($2.Records, "writerRecords").msgs, batch.msgs)
 
-//@ property C17 C02 C11
+//@ property C17 C02 C11 C06
 
 // ---- legacy stream readers (read.go, discard.go): budget accounting ----
 // Every primitive takes the remaining byte budget sz of the enclosing frame and returns the new budget. racct says that the
